@@ -395,7 +395,10 @@ func (h *harness) compare(family, base, html string, res decoded, want []Triple,
 		h.rep.Compared++
 		m := newBnSpace().quads(model, "")
 		if !vh.Isomorphic(res.quads, m) {
-			h.fail("disagreement", family, base, html, "decoder and fragment semantics differ", goS, showQuads(m), preds)
+			// The fragment semantics is a specification written from the standards, not a model of the Go code: a
+			// document on which the decoder yields another graph than the one it denotes is a failure of the property
+			// itself, with this document as the witness.
+			h.fail("violation", family, base, html, "decoded graph is not the graph the document denotes (Spec denotation in `model`)", goS, showQuads(m), preds)
 		}
 	}
 }
